@@ -115,6 +115,8 @@ impl<T: RealNumber, D: Distance<Vec<T>, T>> PartialEq for DBSCAN<T, D> {
             && self.num_classes == other.num_classes
             && self.eps == other.eps
             && self.cluster_labels == other.cluster_labels
+            // predict depends on the training points, not only on their labels
+            && self.knn_algorithm == other.knn_algorithm
     }
 }
 
